@@ -7,7 +7,8 @@ import pipeline as P
 from core import BaseProp, Verdict
 from proto import T
 
-RULE = ('the shipped index, exhaustively: both ready-made Licensings build; every non-deprecated entry\'s key in 4 letter cases and '
+RULE = ('index loading: get_license_index() and the ready-made factories against the bundled JSON file read independently, again after a '
+        'caller customised the list it was given, and for a custom location whose file is replaced; the shipped index, exhaustively: both ready-made Licensings build; every non-deprecated entry\'s key in 4 letter cases and '
         'every alias in 3 parse to that entry\'s symbol with the flag of the index, render as the canonical key and validate '
         'without errors (exceptions: non-strictly alone, strictly on the right of a WITH); deprecated entries and SPDX entries without '
         'SPDX key are unknown; random compound expressions over the entries; synthetic indexes with random deprecated / missing-key / '
@@ -190,8 +191,53 @@ class Prop(BaseProp):
             idx.append(r)
         return idx
 
+    def loading(self, rng):
+        """index loading and the ready-made factories, against the JSON file read here with json.load: whatever was
+        loaded, customised or built before, and when the file at a location is replaced"""
+        import os
+        import tempfile
+        path = os.path.join(os.path.dirname(le.__file__), 'data', 'scancode-licensedb-index.json')
+        with open(path) as f:
+            file_idx = json.load(f)
+        want = {'spdx': table_of(le.build_spdx_licensing(json.loads(json.dumps(file_idx)))),
+                'scancode': table_of(le.build_licensing(json.loads(json.dumps(file_idx))))}
+
+        def ready(label):
+            if le.get_license_index() != file_idx:
+                return Verdict('spec', {'index': 'shipped', 'step': label}, 'get_license_index() is not the content of the bundled file')
+            for kind, fn in (('spdx', le.get_spdx_licensing), ('scancode', le.get_scancode_licensing)):
+                if table_of(fn()) != want[kind]:
+                    return Verdict('spec', {'index': 'shipped', 'kind': kind, 'step': label}, 'the ready-made Licensing is not the one the bundled file describes')
+            return Verdict('ok', {'index': 'shipped', 'step': label}, nontrivial=True, tags=['loading'])
+        yield ready('first use')
+        mine = le.get_license_index()          # a caller customises its own copy of the index ...
+        for r in mine[:50]:
+            r['is_deprecated'] = True
+        mine.append({'license_key': 'my-own-license', 'spdx_license_key': 'LicenseRef-my-own', 'is_exception': False})
+        del mine[60:80]
+        yield ready('after a caller customised the list get_license_index() returned')     # ... the bundled tables are what they were
+        # an index at another location; then another index at that same location
+        a, b = self.synthetic(rng), self.synthetic(rng)
+        with tempfile.TemporaryDirectory(prefix='c15-') as d:
+            loc = os.path.join(d, 'index.json')
+            for label, idx in (('custom location', a), ('custom location, file replaced', b), ('custom location, first file again', a)):
+                with open(loc, 'w') as f:
+                    json.dump(idx, f)
+                case = {'index': 'synthetic', 'step': label, 'records': idx}
+                try:
+                    ok = (le.get_license_index(loc) == idx and table_of(le.get_spdx_licensing(loc)) == table_of(le.build_spdx_licensing(idx))
+                          and table_of(le.get_scancode_licensing(loc)) == table_of(le.build_licensing(idx)))
+                except BaseException as e:  # noqa
+                    yield Verdict('spec', case, 'loading from a location raised ' + type(e).__name__)
+                    continue
+                yield (Verdict('ok', case, nontrivial=True, tags=['loading']) if ok else
+                       Verdict('spec', case, 'the Licensing built from a location is not the one the file there describes'))
+        yield ready('after loading other locations')
+
     def run(self, drv, rng, tier, index, nworkers, scale):
         if index == 0:
+            for v in self.loading(rng):
+                self.record(v)
             idx = le.get_license_index()
             for v in self.check_index(drv, idx, 'shipped', random.Random(1), True):
                 self.record(v)
@@ -214,4 +260,15 @@ class Prop(BaseProp):
         return self.res
 
     def replay(self, drv, data):
-        return []
+        v = data.get('first') or (data.get('diverging') or [None])[0]
+        c = v['case']
+        if c.get('step'):
+            for x in self.loading(random.Random(0)):
+                yield x
+        elif c.get('records'):
+            for x in self.check_index(drv, c['records'], 'synthetic', random.Random(0), False):
+                yield x
+        else:
+            for x in self.check_index(drv, le.get_license_index(), 'shipped', random.Random(1), True):
+                if x.status != 'ok':
+                    yield x
